@@ -1038,9 +1038,13 @@ class NpProxy(types.ModuleType):
         return exactify(_real_np.zeros(_real_np.shape(a), dtype=object) + 1)
 
     def identity(self, n, dtype=None):
+        if dtype is bool:
+            return _real_np.identity(n, dtype=bool)
         return exactify(_real_np.identity(n, dtype=int).astype(object))
 
     def eye(self, n, m=None, k=0, dtype=None):
+        if dtype is bool:
+            return _real_np.eye(n, m, k, dtype=bool)
         return exactify(_real_np.eye(n, m, k, dtype=int).astype(object))
 
     def arange(self, *a, **kw):
